@@ -313,3 +313,36 @@ def k6(i0, i1, i2, req):
     if "pattern" in back:
         return "pattern key left over after the round trip"
     return ""
+
+
+# K7: whole-schema round trip json_schema.parse(json_schema.emit(ir)) with Optional parameters that carry non-None defaults ------------------
+@ob("C06", "K7.schema_roundtrip", {"i": R(-2, 2), "b": BOOL, "hasdoc": BOOL, "n": R(1, 5)}, T=300, funcs=["cdd.json_schema.emit.json_schema", "cdd.json_schema.parse.json_schema", EMIT, PARSE],
+    bound="1..5 parameters out of: Optional[int]=i (i in -2..2), Optional[str]='s', Optional[bool]=b, int=3, Optional[float] without default; prose present or not: "
+          "names, order, types (Optional-ness), defaults come back; required == non-Optional names; a second emission lists the same required")
+def k7(i, b, hasdoc, n):
+    from cdd.json_schema.emit import json_schema as emit
+    from cdd.json_schema.parse import json_schema as parse
+
+    allp = [("a", {"typ": "Optional[int]", "doc": "an a", "default": i}), ("b", {"typ": "Optional[str]", "doc": "a b", "default": "s"}),
+            ("c", {"typ": "Optional[bool]", "doc": "a c", "default": b}), ("d", {"typ": "int", "doc": "a d", "default": 3}),
+            ("e", {"typ": "Optional[float]", "doc": "an e"})]
+    ps = OrderedDict((k, dict(v)) for k, v in allp[:n])
+    ir = {"name": "N", "doc": "Header." if hasdoc else "", "params": OrderedDict((k, dict(v)) for k, v in ps.items()), "returns": None}
+    sch = emit(ir)
+    req1 = list(sch["required"])
+    back = parse(sch)
+    if list(back["params"]) != list(ps):
+        return "parameter names/order changed: %r" % (list(back["params"]),)
+    for k, v in ps.items():
+        g = back["params"][k]
+        if g.get("typ") != v["typ"]:
+            return "param %s: type changed %r -> %r" % (k, v["typ"], g.get("typ"))
+        if ("default" in v) != ("default" in g) or ("default" in v and (g["default"] != v["default"] or type(g["default"]) is not type(v["default"]))):
+            return "param %s: default changed %r -> %r" % (k, v.get("default"), g.get("default"))
+    want_req = [k for k, v in ps.items() if not v["typ"].startswith("Optional[")]
+    if req1 != want_req:
+        return "required %r, expected %r" % (req1, want_req)
+    req2 = list(emit(back)["required"])
+    if req2 != req1:
+        return "re-emitting the parsed interface changes required: %r -> %r" % (req1, req2)
+    return ""
